@@ -15,6 +15,7 @@ structure Under where
   accepted : Bytes := []
   limit : Option Nat := none      -- total bytes it will accept; none = never fails
   zeroWrite : Bool := false       -- on the failing call: accept nothing (true) or what still fits (false)
+  stringWriter : Bool := true     -- the writer implements io.StringWriter (bufio.WriteString may bypass its buffer)
 deriving DecidableEq, Repr
 
 /-- One `Write(p)` on the caller's writer: the new state, bytes taken, error?. -/
@@ -65,6 +66,25 @@ def BW.writeAux : Nat → BW → Bytes → BW
 
 def BW.write (b : BW) (p : Bytes) : BW := BW.writeAux (p.length + 2) b p
 
+/-- `WriteString`: as `Write`, except that the direct path for a large string with an empty buffer exists only when
+    the underlying writer is an io.StringWriter; otherwise the string goes through the buffer in capacity-sized pieces. -/
+def BW.writeStringAux : Nat → BW → Bytes → BW
+  | 0, b, _ => b
+  | fuel + 1, b, p =>
+    if p.length > b.available && !b.err then
+      if b.buf.isEmpty && b.u.stringWriter then
+        let (u', n, e) := b.u.write p
+        let b' := { b with u := u', err := e }
+        if n == 0 && !e then b' else BW.writeStringAux fuel b' (p.drop n)
+      else
+        let n := b.available
+        let b' := ({ b with buf := b.buf ++ p.take n }).flush
+        BW.writeStringAux fuel b' (p.drop n)
+    else if b.err then b
+    else { b with buf := b.buf ++ p }
+
+def BW.writeString (b : BW) (p : Bytes) : BW := BW.writeStringAux (p.length + 2) b p
+
 /-- `Reset(w)`: what GetBuffer does with a pooled buffer. -/
 def BW.reset (b : BW) (u : Under) : BW := { b with buf := [], err := false, u := u }
 
@@ -91,7 +111,7 @@ mutual
       | (b', .none) => runOps rest b'
       | (b', e) => (b', e)
   def runOp : ROp → BW → BW × RErr
-    | .write p, b => let b' := b.write p; (b', if b'.err then .writer else .none)
+    | .write p, b => let b' := b.writeString p; (b', if b'.err then .writer else .none)
     | .exprFail l, b => (b, .expr l)
     | .sub ops, b => runOps ops b
     | .subFail, b => (b, .component)
